@@ -367,12 +367,342 @@ class Streams:
                               f"{dtn} q={q} zp_c={zpc} scale={s_c} (c={creal:.6g}) x: zp={zp} scale={s_x}: model '{want}', real '{first}' -> {kind}",
                               {"stream": "mulmax", "case": c, "request": rq, "semantic_request": sq[:400]}, sm, key=key)
 
+
+    # ---- 2. PAD folded into hardware padding ------------------------------------------------------
+    def stream_padfold(self, n):
+        from ethosu.vela import tflite_graph_optimiser as go
+        from ethosu.vela.data_type import DataType
+        from ethosu.vela.operation import Op, Padding, RoundingMode
+        from ethosu.vela.tensor import create_const_tensor
+
+        ck, rng = self.ck, self.rng
+        cases, reqs, sems = [], [], []
+        for i in range(n):
+            kind = rng.choice("ccdaa")
+            dt = rng.choice([DataType.int8, DataType.int8, DataType.uint8, DataType.int16])
+            kh, kw = rng.choice([(1, 1), (2, 2), (3, 3), (3, 3), (5, 5), (2, 3), (3, 2), (4, 4), (5, 3), (7, 7)])
+            sy, sx = rng.choice([(1, 1), (1, 1), (2, 2), (3, 3), (1, 2), (2, 1)])
+            dy, dx = rng.choice([(1, 1), (1, 1), (2, 2), (1, 2)]) if kind != "a" and (sy, sx) == (1, 1) else (1, 1)
+            ekh, ekw = (kh - 1) * dy + 1, (kw - 1) * dx + 1
+            # pads biased to the boundary cases of the checks: 0, k//2, k//2 + 1, a multiple of the stride
+            def pick(k, s_):
+                return rng.choice([0, 0, k // 2, k // 2, max(k // 2 - 1, 0), k // 2 + 1, s_, 1])
+            top, bottom, left, right = pick(ekh, sy), pick(ekh, sy), pick(ekw, sx), pick(ekw, sx)
+            H, W, C = rng.randint(1, 7), rng.randint(1, 7), rng.choice([1, 2, 3])
+            if H + top + bottom < ekh or W + left + right < ekw:
+                H, W = H + ekh, W + ekw
+            valid = rng.random() < 0.93
+            same_type = rng.random() < 0.95
+            sc_eq = rng.random() < 0.9
+            lo, hi = self.qrange(dt)
+            zp = 0 if dt == DataType.int16 else rng.randint(lo, hi)
+            s_x = self.rand_scale()
+            in0 = self.tens([1, H, W, C], dt if same_type else (DataType.uint8 if dt != DataType.uint8 else DataType.int8), s_x, zp, "in")
+            padded_shape = [1, H + top + bottom, W + left + right, C]
+            pad_t = create_const_tensor("pad", [4, 2], DataType.int32, [[0, 0], [top, bottom], [left, right], [0, 0]])
+            pout = self.tens(padded_shape, dt, s_x if sc_eq else s_x * 1.5, zp, "pad_out")
+            pad_op = self.testutil.create_op(Op.Pad, [in0, pad_t], pout)
+            pad_op.run_on_npu = True
+            oh, ow = (padded_shape[1] - ekh) // sy + 1, (padded_shape[2] - ekw) // sx + 1
+            attrs = {"padding": Padding.VALID if valid else Padding.SAME, "stride_w": sx, "stride_h": sy, "dilation_w_factor": dx,
+                     "dilation_h_factor": dy, "strides": (1, sy, sx, 1), "dilation": (1, dy, dx, 1)}
+            if kind == "c":
+                O = 2
+                wt = self.const([kh, kw, C, O], dt, np.zeros([kh, kw, C, O]), 0.01, 0, "w")
+                bias = create_const_tensor("b", [O], DataType.int32, [0] * O)
+                out_t = self.tens([1, oh, ow, O], dt, self.rand_scale(), zp, "out")
+                op = self.testutil.create_op(Op.Conv2DBias, [pout, wt, bias], out_t, attrs)
+            elif kind == "d":
+                attrs["depth_multiplier"] = 1
+                wt = self.const([kh, kw, C, 1], dt, np.zeros([kh, kw, C, 1]), 0.01, 0, "w")
+                bias = create_const_tensor("b", [C], DataType.int32, [0] * C)
+                out_t = self.tens([1, oh, ow, C], dt, self.rand_scale(), zp, "out")
+                op = self.testutil.create_op(Op.DepthwiseConv2DBias, [pout, wt, bias], out_t, attrs)
+            else:
+                attrs["ksize"] = [1, kh, kw, 1]
+                attrs["filter_height"], attrs["filter_width"] = kh, kw
+                out_t = self.tens([1, oh, ow, C], dt, s_x, zp, "out")
+                op = self.testutil.create_op(Op.AvgPool, [pout], out_t, attrs)
+            op.run_on_npu = True
+            same_real = in0.dtype == pout.dtype
+            eq_real = bool(pout.quantization.is_scaling_equal(in0.quantization))
+            nng = self.testutil.create_graph([pad_op, op])
+            try:
+                out = go.replace_pad_by_hw_pad(op, self.arch, nng)
+                if out.attrs["padding"] == Padding.EXPLICIT:
+                    t_, l_, b_, r_ = (int(v) for v in out.attrs["explicit_padding"])
+                    dw = kind == "a" and out.type == Op.DepthwiseConv2DBias
+                    rd, bs = "-", "-"
+                    if dw:
+                        rd = {RoundingMode.HalfUp: "h", RoundingMode.AwayZero: "a"}.get(out.rounding_mode, "?")
+                        bv = sorted(set(int(v) for v in np.asarray(out.bias.values).reshape(-1)))
+                        bs = str(bv[0]) if len(bv) == 1 else "?" + str(bv)
+                        wv = np.asarray(out.weights.values)
+                        if list(wv.shape) != [kh, kw, 1, C] or not (wv == 1).all():
+                            bs = "?weights"
+                    elif out.type != {"c": Op.Conv2DBias, "d": Op.DepthwiseConv2DBias, "a": Op.AvgPool}[kind]:
+                        rd = "?type"
+                    real = f"ok {t_} {l_} {b_} {r_} {int(dw)} {rd} {bs}"
+                    folded = (t_, l_, int(dw), bs if dw else "-")
+                    if out.ifm is not in0:
+                        real = "?pad-not-bypassed"
+                else:
+                    real, folded = "none", None
+            except Exception as e:  # noqa: B902
+                real, folded = "raises:" + type(e).__name__, None
+            u8 = in0.dtype == DataType.uint8
+            cases.append((kind, self.dtname(dt), H, W, C, (top, left, bottom, right), (kh, kw), (sy, sx), (dy, dx), valid, same_real, eq_real, real))
+            reqs.append(f"rw_padfold {kind} {ekw} {ekh} {sx} {sy} {top} {left} {bottom} {right} {int(valid)} {int(same_real)} {int(eq_real)} "
+                        f"{int(u8)} {zp}")
+            if folded is not None and valid and not real.startswith("?") and "?" not in real:
+                sems.append(f"rwsem_padfold {kind} {H} {W} {C} {top} {left} {bottom} {right} {kh} {kw} {sy} {sx} {dy} {dx} {folded[0]} {folded[1]} "
+                            f"{folded[2]} {folded[3]} {int(u8)} {zp} {rng.getrandbits(20)}")
+            else:
+                sems.append(None)
+        outs = self.model(reqs)
+        sem_outs = iter(self.model([x for x in sems if x is not None]))
+        for c, rq, m, sq in zip(cases, reqs, outs, sems):
+            self.evaluations += 1
+            sm = next(sem_outs) if sq is not None else "not-folded"
+            ck.count("rw_padfold_cases")
+            ck.count("rw_padfold_" + ("folded" if m.startswith("ok") else "kept") + "_" + c[0])
+            if m.startswith("ok") and m.split()[5] == "1":
+                ck.count("rw_padfold_avgpool_to_depthwise")
+            self.nontrivial.add(("padfold",) + c[:10])
+            if c[-1].startswith("raises:"):
+                ck.count("rw_padfold_real_" + c[-1])
+            if m != c[-1] or sm.startswith("fail") or sm.startswith("err"):
+                self.disagree("replace_pad_by_hw_pad", f"{c[:12]}: model '{m}', real '{c[-1]}'",
+                              {"stream": "padfold", "case": c, "request": rq, "semantic_request": sq}, sm)
+
+    # ---- 3. FULLY_CONNECTED shapes -----------------------------------------------------------------
+    def stream_fc(self, n):
+        from ethosu.vela import tflite_graph_optimiser as go
+        from ethosu.vela.data_type import DataType
+        from ethosu.vela.operation import Op
+
+        ck, rng = self.ck, self.rng
+        cases, reqs, sems = [], [], []
+        for i in range(n):
+            I = rng.choice([1, 2, 3, 8, 16, 24])
+            O = rng.choice([1, 4, 10])
+            B = rng.choice([1, 1, 2, 3, 4, 5, 8, 16, 7])
+            form = rng.choice(["2d", "2d", "4d", "3d", "split", "bad"])
+            if form == "2d":
+                shp = [B, I]
+            elif form == "4d":
+                shp = [B, 1, 1, I]
+            elif form == "3d":
+                shp = [1, B, I]
+            elif form == "split" and I % 2 == 0:
+                shp = [B, 2, I // 2]
+            elif form == "bad":
+                shp = [B, I + 1] if (B * (I + 1)) % I else [B, I]
+            else:
+                shp = [B, I]
+            ifm = self.tens(shp, DataType.int8, 0.05, 0, "ifm")
+            wt = self.const([I, O], DataType.int8, np.zeros([I, O]), 0.01, 0, "w")
+            nb = int(np.prod(shp)) // I if int(np.prod(shp)) % I == 0 else B
+            ofm = self.tens([nb, O], DataType.int8, 0.1, 0, "ofm")
+            op = self.testutil.create_op(Op.FullyConnected, [ifm, wt], ofm)
+            op.run_on_npu = True
+            ofm4 = op.ofm_shapes[0].as_list()
+            try:
+                go.rewrite_fully_connected_input(op, self.arch, None)
+                go.convert_batched_fc_shape(op, self.arch, None)
+                i4, o4 = op.ifm_shapes[0].as_list(), op.ofm_shapes[0].as_list()
+                w4 = len(op.inputs[1].shape) == 4
+                real = f"ok {','.join(map(str, i4))} {','.join(map(str, o4))} {int(w4)}"
+            except AssertionError:
+                real, i4, o4 = "none", None, None
+            except Exception as e:  # noqa: B902
+                real, i4, o4 = "raises:" + type(e).__name__, None, None
+            cases.append((shp, I, O, ofm4, real))
+            reqs.append(f"rw_fc {','.join(map(str, shp))} {I} {','.join(map(str, ofm4))}")
+            sems.append(f"rwsem_fc {','.join(map(str, i4))} {','.join(map(str, o4))} {int(np.prod(shp)) // I} {I} {O} {rng.getrandbits(16)}"
+                        if i4 is not None else None)
+        outs = self.model(reqs)
+        sem_outs = iter(self.model([x for x in sems if x is not None]))
+        for c, rq, m, sq in zip(cases, reqs, outs, sems):
+            self.evaluations += 1
+            sm = next(sem_outs) if sq is not None else "rejected"
+            ck.count("rw_fc_cases")
+            ck.count("rw_fc_" + m.split()[0])
+            self.nontrivial.add(("fc", tuple(c[0]), c[1], c[2]))
+            if m != c[-1] or sm.startswith("fail") or sm.startswith("err"):
+                self.disagree("rewrite_fully_connected_input/convert_batched_fc_shape", f"ifm {c[0]} weights [{c[1]},{c[2]}] ofm {c[3]}: model '{m}', real '{c[-1]}'",
+                              {"stream": "fc", "case": c, "request": rq, "semantic_request": sq}, sm)
+
+    # ---- 4. concat / split / slice offsets -----------------------------------------------------------
+    def stream_concat_split(self, n):
+        from ethosu.vela import tflite_graph_optimiser as go
+        from ethosu.vela.data_type import DataType
+        from ethosu.vela.operation import Op
+        from ethosu.vela.tensor import create_const_tensor
+
+        ck, rng = self.ck, self.rng
+        rows = []   # (stream, description, model request, real answer, semantic request)
+        for i in range(n):
+            rank = rng.choice([4, 4, 3, 2])
+            axis = rng.randrange(rank)
+            neg = rng.random() < 0.25
+            base = [1] + [rng.randint(1, 5) for _ in range(rank - 1)]
+            k = rng.randint(2, 4)
+            sizes = [rng.randint(1, 6) for _ in range(k)]
+            if axis == 0:
+                base[0] = 1
+            which = rng.choice(["concat", "concat", "split", "splitv", "slice"])
+            if which == "concat":
+                ins = []
+                for j, d in enumerate(sizes):
+                    shp = list(base)
+                    shp[axis] = d
+                    ins.append(self.tens(shp, DataType.int8, 0.05, 1, f"in{j}"))
+                oshape = list(base)
+                oshape[axis] = sum(sizes)
+                ofm = self.tens(oshape, DataType.int8, 0.05, 1, "ofm")
+                ax = axis - rank if neg else axis
+                op = self.testutil.create_op(Op.ConcatTFLite, ins, ofm, attrs={"axis": ax})
+                op.run_on_npu = True
+                try:
+                    go.rewrite_concat_ops(op, self.arch)
+                    a4 = (4 - rank + axis)
+                    offs = [int(o.write_offset.as_list()[a4]) for o in ofm.ops]
+                    other = [v for o in ofm.ops for j2, v in enumerate(o.write_offset.as_list()) if j2 != a4]
+                    wsh = [int(o.write_shape.as_list()[a4]) for o in ofm.ops]
+                    ok_struct = all(v == 0 for v in other) and wsh == sizes and all(o.inputs[0] is t for o, t in zip(ofm.ops, ins))
+                    real = f"ok {a4} {','.join(map(str, offs))} {offs[-1] + wsh[-1]}" if ok_struct else f"?structure {offs} {other} {wsh}"
+                    sem = f"rwsem_concat {','.join(map(str, sizes))} {','.join(map(str, offs))}"
+                except Exception as e:  # noqa: B902
+                    real, sem = "raises:" + type(e).__name__, None
+                rows.append(("concat", (rank, ax, sizes), f"rw_concat {rank} {ax} {','.join(map(str, sizes))}", real, sem))
+            elif which in ("split", "splitv"):
+                if which == "split":
+                    sizes = [sizes[0]] * k
+                ishape = list(base)
+                ishape[axis] = sum(sizes)
+                inp = self.tens(ishape, DataType.int8, 0.05, 1, "in")
+                outs_t = []
+                for j, d in enumerate(sizes):
+                    shp = list(base)
+                    shp[axis] = d
+                    outs_t.append(self.tens(shp, DataType.int8, 0.05, 1, f"out{j}"))
+                ax_t = create_const_tensor("axis", [], DataType.int32, axis)
+                if which == "split":
+                    op = self.testutil.create_op(Op.Split, [ax_t, inp], outs_t[0], attrs={"num_splits": k}, set_ifm_ofm_shapes=False)
+                else:
+                    sz_t = create_const_tensor("sizes", [k], DataType.int32, sizes)
+                    op = self.testutil.create_op(Op.SplitV, [inp, sz_t, ax_t], outs_t[0], attrs={"num_splits": k}, set_ifm_ofm_shapes=False)
+                for t in outs_t[1:]:
+                    op.outputs.append(t)
+                    t.ops = [op]
+                op.set_ifm_ofm_shapes()
+                op.run_on_npu = True
+                idx = rng.randrange(k)
+                try:
+                    t = go.rewrite_split_ops(outs_t[idx], self.arch, None)
+                    nop = t.ops[0]
+                    a4 = 4 - rank + axis
+                    ro, rs = nop.read_offsets[0].as_list(), nop.read_shapes[0].as_list()
+                    full = [1] * (4 - rank) + list(base)
+                    ok_struct = nop.type == Op.SplitSliceRead and nop.inputs[0] is inp and all(v == 0 for j2, v in enumerate(ro) if j2 != a4) and \
+                        all(v == full[j2] for j2, v in enumerate(rs) if j2 != a4)
+                    real = f"ok {ro[a4]} {rs[a4]}" if ok_struct else f"?structure {ro} {rs}"
+                    sem = f"rwsem_split {','.join(map(str, sizes))} {idx} {ro[a4]} {rs[a4]}"
+                except Exception as e:  # noqa: B902
+                    real, sem = "raises:" + type(e).__name__, None
+                rows.append(("split", (which, rank, axis, sizes, idx), f"rw_split {','.join(map(str, sizes))} {idx}", real, sem))
+            else:
+                ishape = [1] + [rng.randint(2, 7) for _ in range(3)]
+                begin = [0] + [rng.randint(0, d - 1) for d in ishape[1:]]
+                end = [1] + [rng.randint(b + 1, d) for b, d in zip(begin[1:], ishape[1:])]
+                inp = self.tens(ishape, DataType.int8, 0.05, 1, "in")
+                out_t = self.tens([e - b for b, e in zip(begin, end)], DataType.int8, 0.05, 1, "out")
+                bt = create_const_tensor("begin", [4], DataType.int32, begin)
+                et = create_const_tensor("end", [4], DataType.int32, end)
+                st = create_const_tensor("strides", [4], DataType.int32, [1, 1, 1, 1])
+                attrs = {"ellipsis_mask": 0, "new_axis_mask": 0, "shrink_axis_mask": 0, "begin_mask": 0, "end_mask": 0,
+                         "offset_begin": list(begin), "offset_end": list(end)}
+                op = self.testutil.create_op(Op.StridedSlice, [inp, bt, et, st], out_t, attrs=attrs)
+                op.run_on_npu = True
+                try:
+                    t = go.rewrite_split_ops(out_t, self.arch, None)
+                    nop = t.ops[0]
+                    real = f"ok {','.join(map(str, nop.read_offsets[0].as_list()))} {','.join(map(str, nop.read_shapes[0].as_list()))}"
+                except Exception as e:  # noqa: B902
+                    real = "raises:" + type(e).__name__
+                rows.append(("slice", (ishape, begin, end), f"rw_slice {','.join(map(str, begin))} {','.join(map(str, end))}", real, None))
+        outs = self.model([r[2] for r in rows])
+        sem_outs = iter(self.model([r[4] for r in rows if r[4] is not None]))
+        for (stream, desc, rq, real, sq), m in zip(rows, outs):
+            self.evaluations += 1
+            sm = next(sem_outs) if sq is not None else "no-semantic-request"
+            ck.count(f"rw_{stream}_cases")
+            self.nontrivial.add((stream, str(desc)))
+            if m != real or sm.startswith("fail") or sm.startswith("err"):
+                self.disagree({"concat": "rewrite_concat_ops", "split": "rewrite_split_ops", "slice": "rewrite_split_ops(StridedSlice)"}[stream],
+                              f"{desc}: model '{m}', real '{real}'", {"stream": stream, "case": desc, "request": rq, "semantic_request": sq}, sm)
+
+    # ---- 5. depthwise with IFM depth 1 -> convolution -----------------------------------------------------
+    def stream_dw2conv(self, n):
+        from ethosu.vela import graph_optimiser_util as gu
+        from ethosu.vela.data_type import DataType
+        from ethosu.vela.errors import UnsupportedFeatureError
+        from ethosu.vela.operation import Op, Padding
+        from ethosu.vela.tensor import create_const_tensor
+
+        ck, rng = self.ck, self.rng
+        rows = []
+        for i in range(n):
+            M = rng.choice([1, 2, 3, 4, 8])
+            C = rng.choice([1, 1, 1, 2, 3])
+            O = C * M if rng.random() < 0.9 else C * M + 1
+            kh, kw = rng.choice([(1, 1), (2, 2), (3, 3), (2, 3)])
+            ifm = self.tens([1, 6, 6, C], DataType.int8, 0.05, 0, "ifm")
+            wv = np.random.RandomState(rng.getrandbits(32)).randint(-127, 128, [kh, kw, O, 1])
+            wt = self.const([kh, kw, O, 1], DataType.int8, wv, 0.01, 0, "w")
+            bias = create_const_tensor("b", [O], DataType.int32, [0] * O)
+            ofm = self.tens([1, 6, 6, O], DataType.int8, 0.1, 0, "ofm")
+            attrs = {"padding": Padding.SAME, "stride_w": 1, "stride_h": 1, "dilation_w_factor": 1, "dilation_h_factor": 1, "strides": (1, 1, 1, 1),
+                     "depth_multiplier": M, "channel_multiplier": M}
+            op = self.testutil.create_op(Op.DepthwiseConv2DBias, [ifm, wt, bias], ofm, attrs)
+            op.run_on_npu = True
+            sem = None
+            try:
+                out = gu.convert_depthwise_to_conv(op, self.arch, None)
+                if out.type == Op.Conv2DBias:
+                    nv = np.asarray(out.inputs[1].values)
+                    real = "toconv" if list(nv.shape) == [kh, kw, 1, O] and "depth_multiplier" not in out.attrs else f"?shape{list(nv.shape)}"
+                    sem = f"rwsem_dw2conv {kh} {kw} {O} {','.join(map(str, wv.reshape(-1)))} {','.join(map(str, nv.reshape(-1)))} {rng.getrandbits(16)}"
+                else:
+                    real = "keep"
+            except UnsupportedFeatureError:
+                real = "unsupported"
+            except Exception as e:  # noqa: B902
+                real = "raises:" + type(e).__name__
+            rows.append(((M, C, O, kh, kw), f"rw_dw2conv {M} {C} {O}", real, sem))
+        outs = self.model([r[1] for r in rows])
+        sem_outs = iter(self.model([r[3] for r in rows if r[3] is not None]))
+        for (desc, rq, real, sq), m in zip(rows, outs):
+            self.evaluations += 1
+            sm = next(sem_outs) if sq is not None else "not-converted"
+            ck.count("rw_dw2conv_cases")
+            ck.count("rw_dw2conv_" + m)
+            self.nontrivial.add(("dw2conv",) + desc)
+            if m != real or sm.startswith("fail") or sm.startswith("err"):
+                self.disagree("convert_depthwise_to_conv", f"mult/ifm depth/ofm depth/kernel {desc}: model '{m}', real '{real}'",
+                              {"stream": "dw2conv", "case": desc, "request": rq, "semantic_request": (sq or "")[:300]}, sm)
+
     # ---- driver ------------------------------------------------------------------------------------
     def run(self):
         t = self.ck.thorough
         self.stream_lrelu(3000 if t else 600)
         self.stream_mulmax(3000 if t else 500)
         self.stream_activation(48 if t else 16)
+        self.stream_padfold(4000 if t else 700)
+        self.stream_fc(1500 if t else 300)
+        self.stream_concat_split(3000 if t else 500)
+        self.stream_dw2conv(1000 if t else 200)
 
 
 def run(ck):
